@@ -159,6 +159,12 @@ def _state_contracts(T, Cond, Val, Binding, SeqB, Variable, sem):
           Binding.field('value', SeqB.at(_bs, _j)) != Binding.field('value', _b))), patterns=[wfv_f(_var)]),
   ]
 
+  # derived facts (consequences of the definitions above; proved as lemmas on every run)
+  T.lemmas += [
+      ('hvp_implies_hvanyp', z3.ForAll([_var, _v, _m], z3.Implies(hvp_f(_var, _v, _m), hvanyp_f(_var, _v, _m)),
+                                       patterns=[hvp_f(_var, _v, _m)])),
+  ]
+
   def hv(var_t, v_t, upto=None):
     """some binding of the variable has value v and a condition true under sigma."""
     bs = Variable.field('bindings', var_t)
@@ -317,6 +323,11 @@ def _merge_contracts(T, Cond, Val, Variable, Locals, Names, self_obj):
               'all(implies(v in bindings, sem(bindings[v]) == (hv(locals_[name], v) or hvp(var, v, m))) for v in every("Val"))',
           ], index='m'),
       },
+      asserts={'locals_[name] = variables.Variable(': [
+          'all(hv(locals_[name], v) == (v in bindings and sem(bindings[v])) for v in every("Val"))',
+          'wfv(locals_[name])',
+          'all(hv(locals_[name], v) == (hv(entry(2, locals_)[name], v) or hv(var, v)) for v in every("Val"))',
+      ]},
       ghost={'locals_': Locals, 'locals_with_block_condition': Names,
              'bindings': S.DictOf(Val, Cond)},
       instance={'other': 'BlockState'}))
